@@ -149,6 +149,48 @@ class RandomProxy(object):
 RANDOM_PROXY = RandomProxy()
 _REAL_POPEN = _real_subprocess.Popen
 
+try:
+    import requests as _real_requests
+except Exception:  # pragma: no cover
+    _real_requests = None
+
+
+class SimHttpResponse(object):
+    def __init__(self, status_code=200, content=b"", headers=None):
+        self.status_code = status_code
+        self.content = content if isinstance(content, bytes) else content.encode("utf-8")
+        self.headers = headers or {}
+        self.url = ""
+
+    @property
+    def text(self):
+        return self.content.decode("utf-8", "replace")
+
+
+class RequestsProxy(object):
+    """Stands in for the `requests` module inside saml2_tophat: every HTTP exchange goes to the
+    simulated network of the current world (world.net(method, url, **kw) -> SimHttpResponse or
+    raises requests.ConnectionError); without one, the connection fails."""
+
+    def __getattr__(self, name):
+        return getattr(_real_requests, name)
+
+    def request(self, method, url, **kwargs):
+        w = CTX.world
+        net = getattr(w, "net", None) if w is not None else None
+        if net is None:
+            raise _real_requests.ConnectionError("verif: no simulated network for %s" % url)
+        return net(method, url, **kwargs)
+
+    def get(self, url, **kwargs):
+        return self.request("GET", url, **kwargs)
+
+    def post(self, url, **kwargs):
+        return self.request("POST", url, **kwargs)
+
+
+REQUESTS_PROXY = RequestsProxy()
+
 
 def sim_popen(com_list, *args, **kwargs):
     if isinstance(com_list, (list, tuple)) and com_list and com_list[0] == FAKE_BIN:
@@ -190,6 +232,8 @@ def install():
                 new = RANDOM_PROXY
             elif val is _REAL_POPEN:
                 new = sim_popen
+            elif _real_requests is not None and val is _real_requests:
+                new = REQUESTS_PROXY
             elif id(val) in _TIME_FUNCS and getattr(val, "__module__", None) == "time":
                 new = _TIME_FUNCS[id(val)]
             if new is not None:
